@@ -84,6 +84,35 @@ chk(
     "DESIGN.md 4 C06",
 )
 
+chk(
+    "C01",
+    "bounded-exhaustive token enumeration over the splitter's mark classes + seeded Hypothesis garbage/damaged documents + size-scaled families + coverage-guided fuzzing (atheris); no-exception / well-formed-failed-block oracle with a watchdog",
+    "Exploration: every text spelled by <= 5 (quick) / <= 6 (thorough) tokens of the 16-token splitter alphabet (all mark kinds, block openers, backslash, gap material) and by <= 4/6 tokens inside five structured frames, random Unicode / mark soups / damaged grammar documents, 28 size-scaled families at 10^3..10^4 (10^5 thorough) and a coverage-guided atheris campaign (dictionary = the mark alphabet; oracle incl. tiling inside the target) are pushed through parse_string and write_string (4 formats): no exception of any kind (RecursionError, ParserStateException ...), termination within the watchdog, every failed block carries an Exception and a str raw, opener-free text gives at most one implicit comment.",
+    "Trusted: watchdog margins (60 s for inputs < 1 KiB; size-scaled inputs over budget are 'inconclusive'); atheris campaign only approximately reproducible, its findings are re-run through the plain oracle.",
+    "DESIGN.md 4 C01",
+)
+chk(
+    "C02",
+    "constructive ground truth (grammar derivations decoded from Hypothesis int lists) + bounded-exhaustive frame/token enumeration filtered by an independent reference recogniser; exact structural comparison both ways",
+    "Exploration: random derivations of the dialect grammar stated in DESIGN.md 3.2 (0-12 items of all kinds, nested braces to depth 4, quoted values with braces and quotes-in-braces, '#' concatenations, numbers/identifiers, escaped delimiters, every whitespace form incl. CRLF, blocks sharing a line, optional trailing commas, zero-field entries) carry their expected structure from generation; additionally every token sequence of <= 5/6 frame tokens inside six value/string/comment/preamble frames and every sequence of <= 5/6 block-level items is kept when the independent recursive-descent recogniser accepts it. Splitter.split() and parse_string(parse_stack=[]) must return exactly the expected blocks (class, lower-cased type, exact key, ordered fields with verbatim values, string/preamble/comment text) and no failed block.",
+    "Trusted: pbt/bibgen.py (generator) and pbt/refparse.py (recogniser), which must agree with each other on every derivation (else exit 2). The dialect excludes parenthesised blocks, newline between type and '{' and '%' comments inside entries.",
+    "DESIGN.md 3.2, 3.3, 4 C02",
+)
+chk(
+    "C03",
+    "invariant oracle (cursor walk = tiling, newline arithmetic = line numbers) over bounded-exhaustive token sequences, frames, seeded Hypothesis garbage and grammar derivations with generator-known field positions",
+    "Exploration: on every text of the C01 domains (token sequences <= 5/6, frames <= 4/6, random garbage and damaged documents) and on random grammar derivations (also with colliding keys) the raws of parse_string(text).blocks must tile the input in one cursor walk (skip whitespace, raw starts there and is non-empty, only whitespace left at the end), each start_line must equal the number of newlines before the raw's offset, each field line must lie within its block, and for derivations each field whose key and '=' were generated on one line must report exactly that line.",
+    "Trusted: pbt/splitcheck.py tiling(); str.isspace as the meaning of whitespace; lines are newline-separated.",
+    "DESIGN.md 4 C03",
+)
+chk(
+    "C04",
+    "metamorphic relations (prefix stability, resynchronisation with line shift, concatenation) over bounded-exhaustive X token sequences x fixed (D1, D2) pairs, truncations, and seeded Hypothesis garbage / derivation pairs",
+    "Exploration: for X = every sequence of <= 4 (quick) / <= 5 (thorough) splitter tokens and every truncation of five valid blocks, combined with 12 fixed well-formed (D1, D2) pairs covering every block kind at the boundary, and for random garbage X and random grammar-derived D1/D2: parse(D1+X) must start with exactly parse(D1)'s blocks, the last blocks of parse(X + newline + D2) must equal parse(D2) with start lines shifted, and parse(D1 + newline + D2) must be the concatenation; for the bare Splitter and for default parse_string (canonical structural equality incl. failed blocks).",
+    "Trusted: canon() comparison with shifted line attributes; D1/D2 contain no bare identifier that X could define as @string (under parse_string such a reference legitimately resolves), X-relations on random derivations are checked on the bare splitter only.",
+    "DESIGN.md 4 C04",
+)
+
 ALL = ["C%02d" % i for i in range(1, 21)]
 NOT_YET = "check not built yet in this revision of /verif (see DESIGN.md section 4 for its design); not claimed"
 
